@@ -1,11 +1,11 @@
 PID = "C20"
 WORKER = "w_c20"
 HEADER = ("From Coq Require Import List ZArith QArith Qcanon Bool.\n"
-          "From Dimod Require Import Base.Util Model.Poly Model.Adj Model.AdjMore Proofs.AdjFacts Model.ChkC20.\n"
+          "From Dimod Require Import Base.Util Model.Poly Model.Adj Model.AdjMore Proofs.AdjFacts Model.ChkC20 Model.Expr Model.ExprOps Model.ChkC20Cqm.\n"
           "Import ListNotations.\nOpen Scope Qc_scope.")
 CHECK_FN = "check"
 N_QUICK = 1600
-N_THOROUGH = 14000
+N_THOROUGH = 12000
 SHARD = 60
 TIMEOUT = 3000
 SHRINK_KEYS = ["ops", "calls"]
@@ -24,6 +24,7 @@ RULE = ("three case kinds. cpp_models (50%): random op lists (4-28 ops quick, 4-
         "BQM (float64/float32/object), QM, CQM, DQM in child interpreters, 10 s limit per call; thorough adds a valgrind sample. "
         "non-trivial = at least 3 executed ops / any py case; distinct by case JSON")
 TRUSTED = ["model: coq/theories/Model/Adj.v, AdjMore.v, ChkC20.v (hand written mirror of abc.h, binary_quadratic_model.h, quadratic_model.h, utils.h)",
+           "model for the cq.* ops: coq/theories/Model/Expr.v, ExprOps.v (g9's mirror of expression.h / constrained_quadratic_model.h), ChkC20Cqm.v",
            "cpp/driver.cpp (executes the ops, prints the state through the public C++ API, re-checks the invariant natively)",
            "clang++ 14 -fsanitize=address,undefined with libstdc++ assertions: a run without report is taken to be free of the UB classes these tools detect",
            "valgrind 3.19 memcheck for the Python level sample (thorough tier)"]
@@ -31,10 +32,23 @@ ASSUMPTIONS = ["biases are small dyadic rationals (|x| < 2^16, denominators <= 2
                "floating point operation of the implementation is exact and comparison with the rational model is exact",
                "moved-from objects are only cleared or assigned to, as the standard library guarantees no more",
                "sanitizers see the header code compiled into the driver, not the code compiled into the Python extension (that half is covered by the child-interpreter stream and valgrind)"]
-PARTIAL = ["Expression / Constraint / ConstrainedQuadraticModel: the cq.* ops of the driver have no Coq-side model in this check; for "
-           "them the verdict is the native invariant check (base adjacency invariant per expression, variables() duplicate-free, "
-           "inside the parent, consistent with indices_, parent back-pointer observable through vartype/bounds) + sanitizers + live "
-           "assertions after every op",
+PARTIAL = ["cq.* ops with a Coq-side model (Model/ChkC20Cqm.v over g9's Model/Expr.v + ExprOps.mstep; every dump of both CQM objects compared: "
+           "variable info, per expression variables() order, linear by position, offset, quadratic per unordered pair (sum + presence), "
+           "expr_ok evaluated on the observed state): add_variable(s), add_constraint() / add_constraints, new_constraint + add_constraint "
+           "by copy and by move, add_constraint from a QuadraticModel (copy path with distinct labels, move path), add_linear_constraint, "
+           "set_objective (with and without mapping), remove_constraint, remove_variable, fix_variable, substitute_variable, change_vartype, "
+           "set_lower/upper_bound, clear, copy ctor/assignment, move ctor/assignment, swap, and on an expression: add_linear, set_linear, "
+           "add_quadratic, add_offset, set_offset, remove_interaction, remove_variable, remove_variables, substitute_variable, clear",
+           "cq.* ops that stay sanitizer-only (native invariant + ASan/UBSan + live assertions; the Coq model is re-loaded from the dump "
+           "after them): Expression::set_quadratic, Expression::fix_variable, Expression/Constraint::scale, "
+           "ConstrainedQuadraticModel::fix_variables (bulk, copying), remove_constraints_if, add_constraint(QM const&) with repeated labels "
+           "in the mapping; constraint attributes (sense, rhs, weight, penalty, discrete marker), energy, is_disjoint and weak_ptr "
+           "expiry are executed but not compared",
+           "indices_ of an Expression is not observable through the public C++ API: its consistency with variables() is checked by the "
+           "driver's write-through-label / read-through-index probe, not in Coq",
+           "the cq.* cases run on a g++ build of the driver (same flags and sanitizers): the order in which "
+           "add_quadratic(enforce_variable(u), enforce_variable(v)) evaluates its arguments is unspecified in C++ and Model/Expr.v mirrors GCC "
+           "(v first); clang evaluates u first, which changes variables() order only",
            "BinaryQuadraticModel::change_vartype: Inv preservation is proved under the hypothesis that every variable of the object is "
            "BINARY/SPIN (all_binspin); that this holds for every reachable BQM object is checked per case (vartypes compared after "
            "every op) but not proved as an invariant of the step function",
